@@ -12,7 +12,7 @@ R02.3 (K7+K2) write accounting: poll_write encrypts only when the frame fits the
       of write_message, returns Ready(Ok(total)) only after recording the new encrypted length, returns Pending only on
       total == 0, and never skips a chunk (the first chunk that does not fit ends the loop); poll_flush reaches the socket flush
       only with the encrypt buffer drained
-R02.4 (K11, thorough) no Pending without an inner Pending in poll_read / poll_write / poll_flush / poll_close
+R02.4 (K11) no Pending without an inner Pending in poll_read / poll_write / poll_flush / poll_close
 Not decided: byte-exact round trip over all (write size, read buffer, chunking) triples - index arithmetic of the read state machine.
 """
 import re
@@ -25,7 +25,7 @@ import typestate
 
 EXPLANATION = ("Constant-table agreement between litep2p's Noise framing constants, the 2-byte length prefix and the limits of the pinned "
                "snow release; who-may-write rules for the caller's read buffer (only decrypted data; errors on every path after a failed "
-               "decryption); return-shape and guard rules for write accounting and flush ordering; pending-has-waker in thorough.")
+               "decryption); return-shape and guard rules for write accounting and flush ordering; pending-has-waker.")
 
 N = "crypto::noise::"
 RD = "<crypto::noise::NoiseSocket<S> as futures::AsyncRead>::poll_read"
@@ -351,7 +351,6 @@ def run(ctx):
     r02_1(ctx, fx)
     r02_2(ctx, fx)
     r02_3(ctx, fx)
-    if ctx.tier == "thorough":
-        r02_4(ctx, fx)
+    r02_4(ctx, fx)
     ctx.assume("snow's AEAD rejects altered ciphertext (read_message returns Err) and its constants.rs is the source built")
     ctx.assume("the configured noise_write_buffer_size is >= 1 (the Pending exit of poll_write relies on it, see DESIGN R02.4)")
